@@ -274,9 +274,9 @@ def handle : Handler := fun op inp impl =>
     -- the main stream must not contain the shape of known finding F07 (it has its own op)
     if (allCases inp).any isF07 then bad "F07-shaped case in the e2e stream" else
     if str (field inp "mode") == "client" && (allCases inp).any isF27 then bad "F27-shaped case in the client-mode e2e stream" else
-    -- nor the shape of F28: a GET call under a compression, against the reference-mode reference server
+    -- nor the shape of F31: a GET call under a compression, against the reference-mode reference server
     if str (field inp "mode") != "server" && (allCases inp).any (·.method == .idempotent) && natList (field inp "getComps") != [1] then
-      bad "F28-shaped permutations (GET with compression against the reference-mode server) in the e2e stream" else
+      bad "F31-shaped permutations (GET with compression against the reference-mode server) in the e2e stream" else
     judgeE2E inp impl
   | "e2e-f07" =>
     -- only F07-shaped cases: full-duplex, no responses, an error, >= 2 requests
@@ -299,11 +299,11 @@ def handle : Handler := fun op inp impl =>
         has (str (field p "why")) "timed out waiting for result from client"))
     if other.isEmpty then { v with why := if v.holds then "" else "F27: " ++ v.why }
     else { v with holds := false, why := "failure other than the F27 symptom: " ++ toString ((other.take 2).map (fun p => str (field p "name") ++ " :: " ++ str (field p "why"))) }
-  | "e2e-f28" =>
+  | "e2e-f31" =>
     -- suite VG only, under identity and one more compression, against the reference-mode reference server
-    if !(arr (field inp "cases")).isEmpty || str (field inp "mode") == "server" then bad "e2e-f28 input outside the F28 shape" else
+    if !(arr (field inp "cases")).isEmpty || str (field inp "mode") == "server" then bad "e2e-f31 input outside the F31 shape" else
     let v := judgeE2E inp impl
-    -- every failure of this op must be the F28 symptom — a GET call of a permutation with a
+    -- every failure of this op must be the F31 symptom — a GET call of a permutation with a
     -- compression, reported by the reference server as sent uncompressed — and nothing else
     let getCases := (arr (field inp "getCases")).map tcOf
     let perms := arr (field impl "perms")
@@ -311,8 +311,8 @@ def handle : Handler := fun op inp impl =>
       !(!(has (str (field p "name")) "Compression:COMPRESSION_IDENTITY/") &&
         ((permCase [] getCases p).map (·.method == .idempotent)).getD false &&
         (str (field p "why")).startsWith "expected compression " && (str (field p "why")).endsWith "; instead got identity"))
-    if other.isEmpty then { v with why := if v.holds then "" else "F28: " ++ v.why }
-    else { v with holds := false, why := "failure other than the F28 symptom: " ++ toString ((other.take 2).map (fun p => str (field p "name") ++ " :: " ++ str (field p "why"))) }
+    if other.isEmpty then { v with why := if v.holds then "" else "F31: " ++ v.why }
+    else { v with holds := false, why := "failure other than the F31 symptom: " ++ toString ((other.take 2).map (fun p => str (field p "name") ++ " :: " ++ str (field p "why"))) }
   | _ => bad ("unknown op " ++ op)
 
 end ConfModel.Driver.C02
